@@ -13,6 +13,7 @@ from .mon_alg import replay_alg, full_params, all_signatures, _mask_call_info
 DEPTHS = '+depths'
 DUP_MECH = 'duplicate-source-through-merged-inputs'
 DUP2_MECH = 'duplicate-source-name-in-two-roles-nary-merge'
+NARY_DROP_MECH = 'nary-merge-parameter-dropped-and-reintroduced'
 
 
 def own_names(c, _depth=0):
@@ -296,6 +297,24 @@ class Provenance(Monitor):
                 return True
         return (id(dup), name) in self.dup_known
 
+    def dropped_in_fold(self, args, name):
+        """Mechanism predicate shared with the C10 finding of the same name: `name` is a parameter of an
+        earlier input but absent from an intermediate result of the left fold merge(merge(s0, s1), ...)."""
+        if len(args) < 3:
+            return False
+        orig = monitor.original('merge')
+        seen = name in args[0].parameters
+        acc = args[0]
+        for s in args[1:-1]:
+            try:
+                acc = orig(acc, s)
+            except ValueError:
+                return False
+            seen = seen or name in s.parameters
+            if seen and name not in acc.parameters:
+                return True
+        return False
+
     def dup_two_roles(self, dup, name, point, inputs):
         """The fold of an n-ary (n >= 3) merge holds `name` in two buckets at
         once because the inputs use it in two different roles (e.g. positional
@@ -362,7 +381,10 @@ class Provenance(Monitor):
                     elif kr == KO and ki in (PK, KO):
                         expect |= ids
                 have = {id(c) for c in value.sources.get(p.name, ())}
-                if not (expect <= have <= union):
+                if not (expect <= have <= union) and self.dropped_in_fold(args, p.name):
+                    ctx.violation('C08', 'Provenance', NARY_DROP_MECH,
+                                  'n-ary merge: %r was dropped at an intermediate step of the fold and re-introduced by a later input, its sources are those of the later input alone' % p.name, w, rp)
+                elif not (expect <= have <= union):
                     ctx.violation('C08', 'Provenance', 'merge-sources-not-union',
                                   'sources of %r in a merge of consistently named inputs are not exactly the input callables whose parameter of that name receives it' % p.name,
                                   w, rp)
